@@ -1,7 +1,7 @@
 #!/bin/bash
-# runs every thorough command once (sequentially) and prints the verdict lines
-for i in $(seq -w 1 20); do
-  p=C$i
+# usage: thorough_all.sh [<prop>...]   runs the thorough commands once (sequentially) and prints the verdict lines
+props="$@"; [ -z "$props" ] && props=$(for i in $(seq -w 1 20); do echo C$i; done)
+for p in $props; do
   t0=$(date +%s)
   out=$(./check $p --tier thorough --jobs 4 2>&1); rc=$?
   echo "$p rc=$rc $(( $(date +%s) - t0 ))s $(echo "$out" | grep -cE '^VIOLATION') violations $(echo "$out" | grep -cE '^DRIFT') drift"
